@@ -33,8 +33,10 @@ type Mutex interface {
 
 type mutex struct {
 	// concurrency.Mutex is a session level mutex, so sync.Mutex is
-	// required to make it goroutine safe
-	lock    sync.Mutex
+	// required to make it goroutine safe. All mutexes of the same name
+	// in this process share the session key, so they must share the
+	// local lock too.
+	lock    *sync.Mutex
 	m       *concurrency.Mutex
 	timeout time.Duration
 }
@@ -71,7 +73,10 @@ func (c *cluster) Mutex(name string) (Mutex, error) {
 		return nil, err
 	}
 
+	lock, _ := c.localLocks.LoadOrStore(name, &sync.Mutex{})
+
 	return &mutex{
+		lock:    lock.(*sync.Mutex),
 		m:       concurrency.NewMutex(session, name),
 		timeout: c.requestTimeout,
 	}, nil
